@@ -70,19 +70,23 @@ def map1vCore {T Reg : Type} (E : Env) (R : SimdRegister T Reg)
 
 section
 variable {T Reg : Type} {E : Env} {R : SimdRegister T Reg} {L : Nat} {lanes : Reg → Nat → T}
-variable {f : T → T → T} {ok : T → Prop}
+variable {f ft : T → T → T} {ok : T → Prop}
+
+/-- content written by a vector×value kernel whose registers compute `f` and whose scalar tail computes `ft` -/
+def mixGv (cut : Nat) (f ft : T → T → T) (a : Slice T) (value : T) : Nat → T :=
+  fun j => if j < cut then f (a.get j) value else ft (a.get j) value
 variable {opDense : DenseLane Reg → DenseLane Reg → Exec (DenseLane Reg)} {opReg : Reg → Reg → Exec Reg}
 variable {opTail : T → T → Exec T}
 
 theorem map1v_dense_step (MF : MemFaithful R L lanes) (LW : Lanewise2 L lanes f ok opReg opDense)
     (dims : Nat) (value : T) (vdense : DenseLane Reg) (hvd : ∀ k, k < L * 8 → dlanes L lanes vdense k = value)
     (a orig : Slice T) (ha : a.size = dims) (hok : ok value) (i : Nat) (res : Slice T)
-    (hf : Filled dims (fun j => f (a.get j) value) orig i res) (hi : i + L * 8 ≤ dims) :
+    (cut : Nat) (hf : Filled dims (mixGv cut f ft a value) orig i res) (hi : i + L * 8 ≤ dims) (hc : i + L * 8 ≤ cut) :
     ∃ res', (do
         let l1 ← R.load_dense a i
         let r ← opDense l1 vdense
         R.write_dense res i r) = pure res'
-      ∧ Filled dims (fun j => f (a.get j) value) orig (i + L * 8) res' := by
+      ∧ Filled dims (mixGv cut f ft a value) orig (i + L * 8) res' := by
   obtain ⟨d1, e1, h1⟩ := MF.load_dense_ok a i (by omega)
   obtain ⟨d3, e3, h3⟩ := LW.dense d1 vdense (by intro k hk; rw [hvd k hk]; exact hok)
   refine ⟨_, ?_, hf.setRange (L * 8)⟩
@@ -93,16 +97,19 @@ theorem map1v_dense_step (MF : MemFaithful R L lanes) (LW : Lanewise2 L lanes f 
   apply Slice.setRange_congr
   intro k hk
   rw [h3 k hk, h1 k hk, hvd k hk]
+  show _ = mixGv cut f ft a value (i + k)
+  unfold mixGv
+  rw [if_pos (by omega)]
 
 theorem map1v_reg_step (MF : MemFaithful R L lanes) (LW : Lanewise2 L lanes f ok opReg opDense)
     (dims : Nat) (value : T) (vreg : Reg) (hvr : ∀ k, k < L → lanes vreg k = value)
     (a orig : Slice T) (ha : a.size = dims) (hok : ok value) (i : Nat) (res : Slice T)
-    (hf : Filled dims (fun j => f (a.get j) value) orig i res) (hi : i + L ≤ dims) :
+    (cut : Nat) (hf : Filled dims (mixGv cut f ft a value) orig i res) (hi : i + L ≤ dims) (hc : i + L ≤ cut) :
     ∃ res', (do
         let l1 ← R.load a i
         let r ← opReg l1 vreg
         R.write res i r) = pure res'
-      ∧ Filled dims (fun j => f (a.get j) value) orig (i + L) res' := by
+      ∧ Filled dims (mixGv cut f ft a value) orig (i + L) res' := by
   obtain ⟨d1, e1, h1⟩ := MF.load_ok a i (by omega)
   obtain ⟨d3, e3, h3⟩ := LW.single d1 vreg (by intro k hk; rw [hvr k hk]; exact hok)
   refine ⟨_, ?_, hf.setRange L⟩
@@ -113,37 +120,40 @@ theorem map1v_reg_step (MF : MemFaithful R L lanes) (LW : Lanewise2 L lanes f ok
   apply Slice.setRange_congr
   intro k hk
   rw [h3 k hk, h1 k hk, hvr k hk]
+  show _ = mixGv cut f ft a value (i + k)
+  unfold mixGv
+  rw [if_pos (by omega)]
 
-theorem map1v_tail_step (SC : Scalar2 f ok opTail)
+theorem map1v_tail_step (SC : Scalar2 ft ok opTail)
     (dims : Nat) (value : T) (a orig : Slice T) (ha : a.size = dims) (hok : ok value) (i : Nat) (res : Slice T)
-    (hf : Filled dims (fun j => f (a.get j) value) orig i res) (hi : i + 1 ≤ dims) :
+    (cut : Nat) (hf : Filled dims (mixGv cut f ft a value) orig i res) (hi : i + 1 ≤ dims) (hc : cut ≤ i) :
     ∃ res', (do
         let x ← Slice.read a i
         let t ← opTail x value
         Slice.write res i t) = pure res'
-      ∧ Filled dims (fun j => f (a.get j) value) orig (i + 1) res' := by
+      ∧ Filled dims (mixGv cut f ft a value) orig (i + 1) res' := by
   refine ⟨_, ?_, hf.set⟩
   have h1 : i < a.size := by omega
   have h3 : i < res.size := by rw [hf.1]; omega
   simp only [Slice.read, Slice.write, h1, h3, if_true, pure_bind]
   rw [SC _ _ hok]
-  simp
+  simp [mixGv, show ¬ i < cut by omega]
 
 /-- **vector × scalar core theorem.** With the scalar broadcast into `vreg` / `vdense`, a lane-wise faithful
 backend of any lane count, slices of exactly `dims` elements and enough fuel: no fault, `dims` results,
-element `j` is `f a[j] value`, nothing else of the result slice changes. -/
-theorem map1vCore_spec (MF : MemFaithful R L lanes) (LW : Lanewise2 L lanes f ok opReg opDense)
-    (SC : Scalar2 f ok opTail)
+element `j` is `f a[j] value` where a whole register covers it and `ft a[j] value` in the scalar tail, nothing else of
+the result slice changes. -/
+theorem map1vCore_spec2 (MF : MemFaithful R L lanes) (LW : Lanewise2 L lanes f ok opReg opDense)
+    (SC : Scalar2 ft ok opTail)
     (dims : Nat) (value : T) (vreg : Reg) (vdense : DenseLane Reg)
     (hvr : ∀ k, k < L → lanes vreg k = value) (hvd : ∀ k, k < L * 8 → dlanes L lanes vdense k = value)
     (a result : Slice T) (ha : a.size = dims) (hr : result.size = dims)
     (hok : ok value) (hfuel : dims < E.fuel) :
     ∃ res', map1vCore E R opDense opReg opTail dims value vreg vdense a result = pure res'
-      ∧ res'.size = dims ∧ (∀ j, j < dims → res'.get j = f (a.get j) value)
+      ∧ res'.size = dims ∧ (∀ j, j < dims → res'.get j = mixGv (dims - dims % L) f ft a value j)
       ∧ (∀ j, dims ≤ j → res'.get j = result.get j) := by
   have hL := MF.L_pos
   have hK : 0 < L * 8 := by omega
-  let g : Nat → T := fun j => f (a.get j) value
   let q := dims / (L * 8)
   let r := dims % (L * 8)
   have hdims : dims = q * (L * 8) + r := by
@@ -156,28 +166,36 @@ theorem map1vCore_spec (MF : MemFaithful R L lanes) (LW : Lanewise2 L lanes f ok
     have := Nat.div_add_mod r L
     simp only [n2, r2]; rw [Nat.mul_comm]; omega
   have hr2_lt : r2 < L := Nat.mod_lt _ hL
+  let cut := q * (L * 8) + n2 * L
+  have hcut : dims - dims % L = cut := by
+    have h8 : dims % L = r2 := by
+      show dims % L = dims % (L * 8) % L
+      rw [Nat.mod_mul_right_mod]
+    rw [h8]; omega
+  rw [hcut]
+  let g : Nat → T := mixGv cut f ft a value
   have hF0 : Filled dims g result 0 result := ⟨hr, by intro j; simp⟩
-  obtain ⟨res1, e1, hF1⟩ := iter_fill dims (L * 8) g result
+  obtain ⟨res1, e1, hF1⟩ := iter_fill_range dims (L * 8) 0 (q * (L * 8)) g result
     (fun i res => do
       let l1 ← R.load_dense a i
       let r ← opDense l1 vdense
       R.write_dense res i r)
-    (fun i res hf hi => map1v_dense_step MF LW dims value vdense hvd a result ha hok i res hf hi)
-    q 0 result hF0 (by omega)
-  obtain ⟨res2, e2, hF2⟩ := iter_fill dims L g result
+    (fun i res hf _ hi => map1v_dense_step MF LW dims value vdense hvd a result ha hok i res cut hf (by omega) (by omega))
+    q 0 result hF0 (by omega) (by omega)
+  obtain ⟨res2, e2, hF2⟩ := iter_fill_range dims L 0 cut g result
     (fun i res => do
       let l1 ← R.load a i
       let r ← opReg l1 vreg
       R.write res i r)
-    (fun i res hf hi => map1v_reg_step MF LW dims value vreg hvr a result ha hok i res hf hi)
-    n2 (0 + q * (L * 8)) res1 hF1 (by omega)
-  obtain ⟨res3, e3, hF3⟩ := iter_fill dims 1 g result
+    (fun i res hf _ hi => map1v_reg_step MF LW dims value vreg hvr a result ha hok i res cut hf (by omega) hi)
+    n2 (0 + q * (L * 8)) res1 hF1 (by omega) (by omega)
+  obtain ⟨res3, e3, hF3⟩ := iter_fill_range dims 1 cut dims g result
     (fun i res => do
       let x ← Slice.read a i
       let t ← opTail x value
       Slice.write res i t)
-    (fun i res hf hi => map1v_tail_step SC dims value a result ha hok i res hf hi)
-    r2 (0 + q * (L * 8) + n2 * L) res2 hF2 (by omega)
+    (fun i res hf hlo hi => map1v_tail_step SC dims value a result ha hok i res cut hf hi hlo)
+    r2 (0 + q * (L * 8) + n2 * L) res2 hF2 (by omega) (by omega)
   have hend : 0 + q * (L * 8) + n2 * L + r2 * 1 = dims := by omega
   rw [hend] at hF3
   refine ⟨res3, ?_, hF3.1, ?_, ?_⟩
@@ -231,6 +249,22 @@ theorem map1vCore_spec (MF : MemFaithful R L lanes) (LW : Lanewise2 L lanes f ok
     rw [hF3.2 j]
     have : ¬ (j < dims) := by omega
     simp [this]
+
+/-- the single-function form -/
+theorem map1vCore_spec (MF : MemFaithful R L lanes) (LW : Lanewise2 L lanes f ok opReg opDense)
+    (SC : Scalar2 f ok opTail)
+    (dims : Nat) (value : T) (vreg : Reg) (vdense : DenseLane Reg)
+    (hvr : ∀ k, k < L → lanes vreg k = value) (hvd : ∀ k, k < L * 8 → dlanes L lanes vdense k = value)
+    (a result : Slice T) (ha : a.size = dims) (hr : result.size = dims)
+    (hok : ok value) (hfuel : dims < E.fuel) :
+    ∃ res', map1vCore E R opDense opReg opTail dims value vreg vdense a result = pure res'
+      ∧ res'.size = dims ∧ (∀ j, j < dims → res'.get j = f (a.get j) value)
+      ∧ (∀ j, dims ≤ j → res'.get j = result.get j) := by
+  obtain ⟨res', e, h1, h2, h3⟩ := map1vCore_spec2 (ft := f) MF LW SC dims value vreg vdense hvr hvd a result ha hr hok hfuel
+  refine ⟨res', e, h1, ?_, h3⟩
+  intro j hj
+  rw [h2 j hj]
+  simp [mixGv]
 
 end
 
